@@ -11,6 +11,27 @@ def viol(report, rule, what, kind, msg, where="-"):
     report.violate(Violation(report.key(what, rule, kind, ""), where, rule, "%s: %s" % (rule, msg)))
 
 
+def one_table(ctx, report, pw, rule):
+    """the table of names already written is created once per message, in Packet::write_compressed_to: a table per section or per
+    record forgets the names written before it, and a repeated name is then written in full"""
+    prog = ctx.prog
+    news = []
+    for b in prog.bodies.values():
+        if b.crate != "simple_dns" or b.kind == "Promoted":
+            continue
+        for bi, t in mu.calls(b, r"^(std::collections::HashMap::<K, V>::(new|with_capacity)|std::default::Default::default)$"):
+            dt = b.ty(t["dest"]["t"])["s"]
+            if "Label" in dt and "HashMap<" in dt and not b.blocks[bi]["cleanup"]:
+                lps, _irr, _dom = loops.natural_loops(b)
+                news.append(b.qname + (" (inside a loop)" if any(bi in info["body"] for info in lps.values()) else ""))
+    report.count()
+    if news != [pw.qname]:
+        viol(report, rule, "name_refs", "table-creation", "compression tables are created in %s; exactly one per message, in "
+             "Packet::write_compressed_to, is required" % news)
+    else:
+        report.nontriv("one table")
+
+
 def run(ctx):
     prog = ctx.prog
     prog, W = ctx.prog, ctx.whole
@@ -81,20 +102,7 @@ def run(ctx):
         viol(report, "C03-R1", "Name::compress_append", "shape", "compress_append emits %s and plain_append %s; expected per label "
              "`u16 pointer | u8 length + bytes` and a final root byte" % (cseq, pseq), "%s:%d" % (ca.file, ca.line))
     # ---- R2 one table
-    news = []
-    for b in prog.bodies.values():
-        if b.crate != "simple_dns" or b.kind == "Promoted":
-            continue
-        for bi, t in mu.calls(b, r"^std::collections::HashMap::<K, V>::new$"):
-            dt = b.ty(t["dest"]["t"])["s"]
-            if "Label" in dt:
-                news.append(b.qname)
-    report.count()
-    if news != [pw.qname]:
-        viol(report, "C03-R2", "name_refs", "table-creation", "compression tables are created in %s; exactly one per message, in "
-             "Packet::write_compressed_to, is required" % news)
-    else:
-        report.nontriv("one table")
+    one_table(ctx, report, pw, "C03-R2")
     n, bad = compress.name_refs_flow(ctx)
     report.count(n)
     report.floor("nested compressed writes", n, 20)
